@@ -394,6 +394,70 @@ def _m_consume_all(v, d, c):
         return [("EXC", type(ex).__name__, str(ex)[:60])]
 
 
+# ------------------------------------------------------------------ part K: validators of related CLASSES
+# A draft class, a Python subclass of it that overrides VALIDATORS / TYPE_CHECKER as class attributes, and a class
+# derived with extend(): objects of different classes share no resolver either, whichever class is used first.
+def k_classes(J, d):
+    """{name: class}, built from the package object J (a fresh import for every run)."""
+    from collections import OrderedDict
+    base = getattr(J, "Draft%dValidator" % d)
+
+    def loud_minimum(validator, minimum, instance, schema):
+        if validator.is_type(instance, "number"):
+            yield J.ValidationError("sub-minimum %r" % (minimum,))
+
+    def loud_type(validator, types, instance, schema):
+        yield J.ValidationError("sub-type")
+    out = OrderedDict()
+    out["base"] = base
+    out["sub-validators"] = type("SubV", (base,), {"VALIDATORS": dict(base.VALIDATORS, minimum=loud_minimum)})
+    out["sub-both"] = type("SubB", (base,), {"VALIDATORS": dict(base.VALIDATORS, type=loud_type),
+                                             "TYPE_CHECKER": base.TYPE_CHECKER.redefine("string", lambda c, i: True)})
+    out["extended"] = J.validators.extend(base, {"minimum": loud_minimum})
+    return out
+
+
+K_SCHEMA = {"properties": {"m": {"minimum": 5}, "t": {"type": "integer"}, "s": {"type": "string"}}}
+K_INST = {"m": 3, "t": "x", "s": 12}
+K_EXPECT = {
+    "base": sorted(["3 is less than the minimum of 5", "'x' is not of type 'integer'", "12 is not of type 'string'"]),
+    "sub-validators": sorted(["sub-minimum 5", "'x' is not of type 'integer'", "12 is not of type 'string'"]),
+    "sub-both": sorted(["3 is less than the minimum of 5", "sub-type", "sub-type"]),
+    "extended": sorted(["sub-minimum 5", "'x' is not of type 'integer'", "12 is not of type 'string'"]),
+}
+K_ORDERS = [("base", "sub-validators"), ("sub-validators", "base"), ("base", "sub-both"), ("sub-both", "base"),
+            ("base", "extended", "sub-validators"), ("extended", "base"), ("sub-validators", "sub-both", "base"),
+            ("base", "sub-validators", "base")]
+
+
+def k_run(d, order, consumption):
+    """Fresh package; validators of the classes in `order`, constructed and started in that order; consumed
+    sequentially or one error at a time in turn."""
+    with _Warm():
+        J = fresh_package()
+        classes = k_classes(J, d)
+        vals = [classes[name](copy.deepcopy(K_SCHEMA)) for name in order]
+        got = [[] for _ in order]
+        if consumption == "sequential":
+            for i, v in enumerate(vals):
+                got[i] = [e.message for e in v.iter_errors(copy.deepcopy(K_INST))]
+        else:
+            its = [v.iter_errors(copy.deepcopy(K_INST)) for v in vals]
+            live = list(range(len(its)))
+            while live:
+                for i in list(live):
+                    e = next(its[i], None)
+                    if e is None:
+                        live.remove(i)
+                    else:
+                        got[i].append(e.message)
+    problems = []
+    for i, name in enumerate(order):
+        if sorted(got[i]) != K_EXPECT[name]:
+            problems.append({"consumer": i, "class": name, "got": sorted(got[i]), "expected": K_EXPECT[name]})
+    return problems
+
+
 # ------------------------------------------------------------------ part D: cold start
 # The threads themselves construct resolver and validator, and the package is imported afresh for every
 # schedule, so that every lazily built module-level table is built *during* the explored schedule.
@@ -560,6 +624,10 @@ def plan(ctx):
         for ci in range(len(M_COMBOS)):
             units.append(("M", d, ci))
     sizes["partM_combinations"] = len(M_COMBOS)
+    for d in _e1.DRAFTS:
+        for oi in range(len(K_ORDERS)):
+            units.append(("K", d, oi))
+    sizes["partK_orders"] = len(K_ORDERS)
     drafts_d = (7, 4) if ctx.tier == "quick" else _e1.DRAFTS
     with _Warm():
         for d in drafts_d:
@@ -585,7 +653,9 @@ def plan(ctx):
                  "check_schema of different draft classes in concurrent threads (the metaschemas use $ref); part M: "
                  "customised copies of the bundled metaschema that keep its id (same pointer, other meaning) next to "
                  "each other and to a validator of the bundled metaschema, constructed and consumed in every order "
-                 "of 6 combinations, sequentially and alternating; part D (cold "
+                 "of 6 combinations, sequentially and alternating; part K: validators of a draft class, of Python "
+                 "subclasses overriding VALIDATORS / TYPE_CHECKER and of an extend()ed class, constructed and consumed "
+                 "in 8 orders, sequentially and alternating, each run on a freshly imported package; part D (cold "
                  "start): the package is imported afresh for every schedule and the threads themselves construct "
                  "resolver and validator (explicit resolver / implicit / module-level validate / check_schema), so "
                  "lazily built module-level tables are built under every explored schedule; each "
@@ -643,6 +713,21 @@ def run_unit(unit, ctx):
                 "outcomes": outcomes,
                 "counters": {"states": r["schedules"], "transitions": r["steps"],
                              "traces_validated_against_impl": r["schedules"], "checkschema_schedules": r["schedules"]}}
+    if unit[0] == "K":
+        _, d, oi = unit
+        n = 0
+        for consumption in ("sequential", "alternating"):
+            n += 1
+            probs = k_run(d, K_ORDERS[oi], consumption)
+            key = "related-classes-agree" if not probs else "RELATED-CLASSES-DISAGREE"
+            outcomes[key] = outcomes.get(key, 0) + 1
+            if probs:
+                viol.append({"signature": "C18|related-classes|%s-affected" % probs[0]["class"], "size": len(K_ORDERS[oi]),
+                             "case": {"part": "K", "draft": d, "order": list(K_ORDERS[oi]), "consumption": consumption},
+                             "detail": probs[:2]})
+        return {"evaluations": n, "nontrivial": n, "violations": viol, "samples": samples, "outcomes": outcomes,
+                "counters": {"states": n, "transitions": n * len(K_ORDERS[oi]), "traces_validated_against_impl": n,
+                             "partK_runs": n}}
     if unit[0] == "M":
         _, d, ci = unit
         combo = M_COMBOS[ci]
@@ -705,6 +790,9 @@ def replay(case, ctx):
         results, points = sc.run()
         bad = cs_check(drafts)(results)
         return {"reproduced": bad is not None, "problem": bad}
+    if case["part"] == "K":
+        probs = k_run(case["draft"], tuple(case["order"]), case["consumption"])
+        return {"reproduced": bool(probs), "problems": probs[:2]}
     if case["part"] == "M":
         for dd in _e1.DRAFTS:
             m_expected(dd, "stock")     # as in plan(): the bundled metaschemas are used before any copy exists
